@@ -440,6 +440,42 @@ def job_fine_cold(kind, ta, tb, k_lo, k_hi):
     return res
 
 
+def job_free_running(rounds):
+    """SUPPLEMENTARY, never deciding (sampling is not this family's technique): three free-running threads parse on one
+    engine under a 1 microsecond switch interval.  A mismatch is reported as a NOTE and counted in the evidence only."""
+    import sys
+    import threading
+    res = Result()
+    texts = ['1 + 2', 'a.b', "f(x, 'y')", 'false and not null or x in y', '[1, 2][0]', 'a b']
+    base = {t: baseline('default', t) for t in texts}
+    old = sys.getswitchinterval()
+    sys.setswitchinterval(1e-6)
+    bad = []
+    try:
+        for r in range(rounds):
+            eng = make_engine('default') if r % 50 == 0 else eng
+            outs = {}
+
+            def body(i):
+                t = texts[(r + i) % len(texts)]
+                outs[i] = (t, parse_outcome(eng, t))
+            ths = [threading.Thread(target=body, args=(i,)) for i in range(3)]
+            for th in ths:
+                th.start()
+            for th in ths:
+                th.join()
+            for i, (t, o) in outs.items():
+                if o != base[t]:
+                    bad.append((r, t, o))
+    finally:
+        sys.setswitchinterval(old)
+    res.extra['free_running_rounds_supplementary'] = rounds
+    res.extra['free_running_mismatches_supplementary'] = len(bad)
+    if bad:
+        res.notes.append('C01 supplementary free-running pass: %d mismatching parses, e.g. %r (not deciding, not replayable)' % (len(bad), bad[0]))
+    return res
+
+
 def job_eval_path(texts):
     """The module-level yaql.eval path: shared cached engine and expression cache."""
     res = Result()
@@ -550,6 +586,8 @@ def jobs(tier, seed):
         step = 60
         for lo in range(1, n + 1, step):
             out.append(('fine-cold-%d-%05d' % (ci, lo), 'job_fine_cold', ('default', ta, tb, lo, lo + step)))
+    if not quick:
+        out.append(('free-running-supplementary', 'job_free_running', (3000,)))
     out.append(('evalpath', 'job_eval_path', (['$.a.b', '$.x + 1', '1 +'] if quick else ['$.a.b', '$.x + 1', '1 +', '[$.x]', 'a b'],)))
     return out
 
